@@ -143,3 +143,11 @@ Proof.
   exact (conj pin_projector_src_cli_ast_to_dict (conj pin_projector_src_cli_ast_to_markdown
         (conj pin_projector_src_cli_block_to_markdown pin_projector_src_cli_eject))).
 Qed.
+
+(* ---- source-text pins (generated by harness/pinsets.py) ---- *)
+(* every function of these modules is, text for text (comments and docstrings excluded), the one the models of this
+   property were written against and validated against: harness/translate/srcdigest_t.py, Src/Pin_*.v *)
+From OV Require Import Gen.SrcDigestGen Src.Pin_core_projector Src.Pin_mcp_eject Src.Pin_cli_main Src.Pin_core_emitter.
+Theorem C14_pin_source_text :
+  src_core_projector_pinned /\ src_mcp_eject_pinned /\ src_cli_main_pinned /\ src_core_emitter_pinned.
+Proof. exact (conj src_core_projector_pinned_ok (conj src_mcp_eject_pinned_ok (conj src_cli_main_pinned_ok src_core_emitter_pinned_ok))). Qed.
